@@ -13,7 +13,8 @@ COMMON_NOTE = ("Trusted: Lean 4.33.0 kernel; axioms propext, Classical.choice, Q
 P = {
  "C01": dict(text="Proved about the model, for every oracle meeting the bliss contract and every pair of descriptions of one molecule "
              "(Iso SameIdent: any renumbering, any listing order of atoms and bonds, any bond orientation; no connectivity or asymmetry "
-             "hypothesis): tucanOf O g' = tucanOf O g (C01_string_invariant); the contract is inhabited. Built from sort "
+             "hypothesis): tucanOf O g' = tucanOf O g (C01_string_invariant); carried down to the text of two molfiles, V3000 with any "
+             "indices or V2000, that list one molecule's atoms and bonds in different orders (C01_files_same_string); the contract is inhabited. Built from sort "
              "canonicality, equivariance of partition and refinement, the relabelling lemmas for networkx's container, and "
              "representation independence of the serializer. The probe evaluates the property on the real code.",
              note="igraph/bliss enters as a recorded oracle answer whose contract (a permutation of the vertices; identical canonical "
